@@ -213,3 +213,41 @@ NOT_BUILT_REASON = 'rules designed in DESIGN.md section 3 but not built yet; no 
 
 # properties for which no static rule is claimed, with the reason (kept current as checks are added)
 NOT_APPLICABLE = {}
+
+
+# Rules added after the second round of seeded changes (appended to the claim text above).
+EXTRA = {
+    'C01': 'Also: every accumulation into the WHFast jerk buffer has dimension L T^-4 and all other sums in reb_whfast_calculate_jerk are homogeneous (R01.9); the SEI '
+           'epicycle operator, summarised algebraically, is the exact flow of Hill\'s equations over dt/2 with the constants its init routine stores (R01.8); the catch-up loops for user '
+           'ODEs and for the TRACE/MERCURIUS sub-steps order times validly for both signs of the step and clamp their last sub-step (R08.8).',
+    'C02': 'Also: the iteration spaces of the direct, compensated and hybrid-interaction pair loops equal the specified pair set (each pair once) for every ordering of N_active, '
+           'test-particle count, test-particle type and gravity_ignore_terms in a complete small family (R02.8); integer variables of the hybrid integrators are typed global/compact '
+           'index and never cross (R02.9); every sum, accumulation and comparison of the force routines and kick/drift/jump operators is dimensionally homogeneous over (L,T,M) (R02.4); '
+           'the box edges are one formula per axis.',
+    'C03': 'Also: the pair set of the direct and compensated routines leaves out exactly the term solved by the Kepler step for gravity_ignore_terms 1 and 2 (R02.8).',
+    'C04': 'Also: every x/y/z statement triple of every function of every integrator source file is one formula under an axis permutation (R04.6).',
+    'C05': 'Also: the byte count of every case of the writer\'s dtype switch equals the size of the members the rows of that dtype designate (R05.8).',
+    'C06': 'Also: descriptor rows designate the member they name (R05.2, shared with C05).',
+    'C08': 'Also: the escape and close-encounter scans of the heartbeat range over the real particles only, compare in the right direction and set the matching status (R08.7); '
+           'time and step comparisons of the catch-up loops, the exit test and the snapshot cadence are direction-normalised, and every catch-up loop clamps its last sub-step (R08.8).',
+    'C09': 'Also: Simulationarchive.getSimulation sets the keep_unsynchronized switches before the first synchronising call in every branch (R09.7) and only on the integrator '
+           'whose safe_mode it examined, because the C init routines refuse keep_unsynchronized with safe_mode (R09.8).',
+    'C10': 'Also: x/y/z triples of the reversible schemes (JANUS integer conversion included) are one formula per axis (R10.6); the SEI epicycle operator composed with itself under '
+           'dt -> -dt is the identity as a rational map and has unit Jacobian (R10.7).',
+    'C11': 'Also: the reported pericentre time inverts the accepted formula M = n (t - T) for bound and unbound orbits as a symbolic identity (R11.8); component triples of the orbit '
+           'conversion outside the reference-plane stanzas are one formula per axis (R11.7).',
+    'C13': 'Also: the opening radius of both tree collision walks is a sum containing the search radius of particle 1 (radius plus travel for the line search), a bound on the '
+           'partner\'s radius, the partner drift bound (line search) and at least sqrt(3)/2 cell widths, and no parameter of the walks is merely handed down the recursion (R13.7); '
+           'the relative position/velocity stanzas of the hard-sphere resolver are one formula per axis.',
+    'C14': 'Also: qsort comparators are overflow-free three-way comparisons and the bisection orders the same unsigned key (R14.7); every function that releases a growable buffer '
+           'resets its capacity counter - 25 buffer/counter pairs taken from the growth sites (R14.8).',
+    'C15': 'Also: box set-up (boxsize, root counts) is one formula per axis.',
+    'C16': 'Also: in WHFast every Jacobi<->inertial conversion of the real particles stands next to the same conversion of every variational configuration where the statement list has one (R16.6).',
+    'C17': 'Also: descriptor rows designate the member they name (R05.2) and the archive heartbeat advances the deadline before it writes (R06.5), so a stored snapshot equals the live state.',
+    'C19': 'Also: the one capacity counter the serialiser lowers is lowered to a size the owner\'s growth test itself asks for (R19.4).',
+    'C20': 'Also: in reb_simulation_move_to_com the totals come from completed loops over the right member and the per-particle summands of the first- and second-order shifts equal '
+           'the first and mixed second derivative of sum m x / sum m (R20.7); units_convert_particle converts every dimensional field, also when written as a setattr loop.',
+}
+for _k, _t in EXTRA.items():
+    CLAIMS[_k]['decided'] = CLAIMS[_k]['decided'].rstrip() + ' ' + _t
+CLAIMS['C02']['not_decided'] = 'numeric equality with the Newtonian sum, tree multipole bound, compensated-summation accuracy; pair sets of the encounter-mode loops (compact index space)'
